@@ -1026,7 +1026,7 @@ func (g *sqlGen) addDirectives() {
 		if tr.Primary != "" {
 			for i := range tr.Columns {
 				c := &tr.Columns[i]
-				if c.Kind == "fk:null-tag" && c.FK != nil && c.FK.Exists && !c.Unique && g.pr(0.5) {
+				if c.Kind == "fk:null-tag" && c.FK != nil && c.FK.Exists && !c.Unique && g.pr(0.9) {
 					add(SQLDirective{Kind: "unique-1", Raw: fmt.Sprintf("ADD UNIQUE(%s)", c.Field), Expected: fmt.Sprintf("ALTER TABLE %s ADD UNIQUE(%s);", tr.SQLName, c.Field)})
 					tr.Uniques = append(tr.Uniques, []string{c.Field})
 					c.Unique = true
